@@ -75,6 +75,14 @@ func (s *Script) define(base, sort, term string) string {
 	return n
 }
 
+// nameConst introduces a declared constant equal to term (usable in patterns).
+func (s *Script) nameConst(base, sort, term string) string {
+	n := s.fresh(base)
+	s.declare(n, sort)
+	s.add("(assert (= " + n + " " + term + "))")
+	return n
+}
+
 func (s *Script) assert(term string) {
 	if term == "true" {
 		return
@@ -327,10 +335,18 @@ const prelude = `(set-option :produce-models true)
 (declare-fun gstr.at (Str Int) Int)
 (declare-fun gstr.cat (Str Str) Str)
 (declare-fun gstr.empty () Str)
+(declare-fun flt.zero () Flt)
+(declare-fun zarr1.Str () (Array Int Str))
+(declare-fun zarr2.Str () (Array Int (Array Int Str)))
+(declare-fun zarr1.Flt () (Array Int Flt))
+(declare-fun zarr2.Flt () (Array Int (Array Int Flt)))
 (assert (= (gstr.len gstr.empty) 0))
+(assert (forall ((i Int)) (! (= (select zarr1.Str i) gstr.empty) :pattern ((select zarr1.Str i)))))
+(assert (forall ((i Int)) (! (= (select zarr2.Str i) zarr1.Str) :pattern ((select zarr2.Str i)))))
+(assert (forall ((i Int)) (! (= (select zarr1.Flt i) flt.zero) :pattern ((select zarr1.Flt i)))))
+(assert (forall ((i Int)) (! (= (select zarr2.Flt i) zarr1.Flt) :pattern ((select zarr2.Flt i)))))
 (assert (forall ((s Str)) (! (>= (gstr.len s) 0) :pattern ((gstr.len s)))))
 (assert (forall ((s Str) (t Str)) (! (= (gstr.len (gstr.cat s t)) (+ (gstr.len s) (gstr.len t))) :pattern ((gstr.cat s t)))))
-(declare-fun flt.zero () Flt)
 (declare-fun bit.and (Int Int) Int)
 (declare-fun bit.or (Int Int) Int)
 (declare-fun bit.xor (Int Int) Int)
